@@ -77,16 +77,22 @@ Proof.
 Qed.
 
 (* ---- witnesses of the known findings ---- *)
-Lemma F21_witness :
+(* F21, what is left of it after the parser repair: SearchTerms.__str__ writes
+   a term that starts and ends with the same quote character without
+   escaping the quotes, so the canonical text re-parses to the bare term *)
+Lemma F21_canon_witness :
   exists (sp : sep) (l : list sseg),
-    l = [((Some TSearch, ASearch false MEquals "a" "'"), plain_style)]
-    /\ render_ref sp l = "[a=\']"
-    /\ parse (Forced sp) true (render_ref sp l) = Ok [(Some TSearch, ASearch false MEquals "a" "")]
-    /\ parse (Forced sp) true (render_ref sp l) <> Ok (segs_of l).
+    l = [((Some TSearch, ASearch false MEquals "a" "'x'"), plain_style)]
+    /\ wf sp l = true /\ wfc sp l = false
+    /\ render_ref sp l = "[a=\'x\']"
+    /\ parse (Forced sp) true (render_ref sp l) = Ok (segs_of l)
+    /\ path_str (Forced sp) (render_ref sp l) = Ok "[a=\'x\']"
+    /\ path_str (Forced sp) """a""[b=""'x'""]" = Ok "a[b='x']"
+    /\ parse (Forced sp) true """a""[b=""'x'""]" = Ok [(Some TKey, AStr "a"); (Some TSearch, ASearch false MEquals "b" "'x'")]
+    /\ parse (Forced sp) true "a[b='x']" = Ok [(Some TKey, AStr "a"); (Some TSearch, ASearch false MEquals "b" "x")].
 Proof.
-  exists Dot, [((Some TSearch, ASearch false MEquals "a" "'"), plain_style)].
-  split; [reflexivity|]. split; [vm_compute; reflexivity|]. split; [vm_compute; reflexivity|].
-  vm_compute. discriminate.
+  exists Dot, [((Some TSearch, ASearch false MEquals "a" "'x'"), plain_style)].
+  repeat split; vm_compute; reflexivity.
 Qed.
 
 Lemma F23_witness :
